@@ -13,7 +13,7 @@ import (
 
 // C19 — a conversation's retained state is bounded, whatever the traffic.
 
-var c19Letters = []string{"a", "b", "F", "R", "I", "g", "h", "r", "E"}
+var c19Letters = []string{"a", "b", "F", "R", "I", "g", "h", "r", "E", "M"}
 
 var c19LetterDoc = map[string]string{
 	"a": "A sends a text, delivered (with all replies)",
@@ -25,6 +25,7 @@ var c19LetterDoc = map[string]string{
 	"h": "clock tick, then A sends a text, delivered (a heartbeat comes back)",
 	"r": "refresh: clock tick, A's query, exchange run to quiescence",
 	"E": "error report (?OTR Error: …) delivered to A, replies delivered",
+	"M": "malformed fragment (instance tag below 0x100) delivered to A, replies delivered",
 }
 
 // c19Sizes: bytes reachable from the conversation, per top-level field
@@ -109,6 +110,11 @@ func c19Run(seed int64, v int, pattern string, marks []int) (probes []c19Probe, 
 			A.Receive(c09Forge(A.C, incr, incr+7, []byte("wrong mac key 012345")))
 		case 'g':
 			A.Receive([]byte("?OTR:AAMDAAAAAAAAAAAAAAAAAAAAAAAAAAAAAAAAAAAAAAAAAAAAAAAA."))
+		case 'M':
+			r := A.Receive([]byte("?OTR|00000005|00000006,00001,00002,xx,"))
+			count(r.Out)
+			w.push(0, r.Out)
+			flush()
 		case 'E':
 			r := A.Receive([]byte("?OTR Error: could not read that"))
 			count(r.Out)
@@ -191,7 +197,7 @@ func init() {
 			return c19Eval(c, seed)
 		},
 		Run: func(r *verifReport) {
-			r.Rule = "EVERY word of length ≤ 3 over the step alphabet {A→B text delivered, B→A text delivered, forged data message with current / arbitrary / ever-increasing key ids, garbage message, heartbeat, refresh exchange, error report} (819 periodic traffic patterns; quick 692) is repeated n, 2n, 3n and 4n times from an established session (n = 6 quick, 16 thorough) on the real conversations; the bytes reachable from each conversation are measured per field by a reflective walk (slices to capacity) and the bytes emitted during the last period are recorded. The runs are deterministic, so growth is exact: a violation is a field (or the output of one period) that grows by ≥ n/2 in each of the three consecutive intervals of n repetitions (a bounded buffer still filling up levels off; bounds of up to 3n = 18 periods are tolerated)"
+			r.Rule = "EVERY word of length ≤ 3 over the step alphabet {A→B text delivered, B→A text delivered, forged data message with current / arbitrary / ever-increasing key ids, garbage message, heartbeat, refresh exchange, error report, malformed fragment} (1110 periodic traffic patterns; quick 711) is repeated n, 2n, 3n and 4n times from an established session (n = 6 quick, 16 thorough) on the real conversations; the bytes reachable from each conversation are measured per field by a reflective walk (slices to capacity) and the bytes emitted during the last period are recorded. The runs are deterministic, so growth is exact: a violation is a field (or the output of one period) that grows by ≥ n/2 in each of the three consecutive intervals of n repetitions (a bounded buffer still filling up levels off; bounds of up to 3n = 18 periods are tolerated)"
 			r.Assumptions = []string{"no incomplete fragment streams and no texts queued before a session exist in these histories (the two kinds of storage the property allows to grow)"}
 			n := 6
 			if r.Tier == "thorough" {
@@ -204,6 +210,9 @@ func init() {
 					for _, v := range []int{3, 2} {
 						if v == 2 && r.Tier == "quick" && len(prefix) > 2 {
 							continue // quick: v2 for patterns up to length 2
+						}
+						if r.Tier == "quick" && len(prefix) > 2 && strings.Contains(prefix, "M") {
+							continue // quick: malformed fragments in patterns up to length 2
 						}
 						if r.Tier == "quick" && len(prefix) > 2 && strings.Contains(prefix, "E") && !strings.ContainsAny(prefix, "ra") {
 							continue // quick: an error report matters through what is resent later (after a refresh) or was sent before
